@@ -46,10 +46,20 @@ def case_tone(c):
     coarse = c['coarse']                      # absolute coarse channel index carrying the tone
     f0 = fch1 + sgn * (coarse * chan_bw + c['offset'] * fine_bw)
     drift = sgn * c['drift'] * fine_bw / (N * tbin)          # sky Hz/s: c['drift'] fine bins per fine spectrum (baseband sense)
-    ant = sv.Antenna(sample_rate=rate, fch1=fch1, ascending=asc, num_pols=npol, seed=1)
+    form = c.get('form')
+    # (sub-box) the arguments in the forms a caller may hold them: the orientation flag as a numpy bool / 0-1, the frequencies and the
+    # drift rate as astropy Quantities in non-base units
+    asc_arg = np.bool_(asc) if form == 'npbool' else (int(asc) if form == 'int' else asc)
+    if form == 'quantity':
+        from astropy import units as u
+        ant = sv.Antenna(sample_rate=(rate / 1e6) * u.MHz, fch1=(fch1 / 1e6) * u.MHz, ascending=asc_arg, num_pols=npol, seed=1)
+        f0_arg, drift_arg = (f0 / 1e3) * u.kHz, (drift / 1e3) * u.kHz / u.s
+    else:
+        ant = sv.Antenna(sample_rate=rate, fch1=fch1, ascending=asc_arg, num_pols=npol, seed=1)
+        f0_arg, drift_arg = f0, drift
     tone_streams = {'1': [0], 'x': [0], 'y': [1], 'xy': [0, 1]}[c['polcfg']]
     for k in tone_streams:
-        ant.streams[k].add_constant_signal(f_start=f0, drift_rate=drift, level=1.0, phase=0.3 * k)
+        ant.streams[k].add_constant_signal(f_start=f0_arg, drift_rate=drift_arg, level=1.0, phase=0.3 * k)
     second = c.get('second')
     if second:
         # a second constant signal on the SAME stream(s), in another recorded coarse channel
@@ -284,6 +294,9 @@ def run(ctx):
                                         for dig in ((True, False) if (Tt or (off == 1 and drift == 0)) else (True,)):
                                             cases.append(dict(rate=rate, P=P, start_chan=sc, num_chans=nc, asc=asc, fch1=fch1,
                                                               polcfg=polcfg, N=N, coarse=coarse, offset=off, drift=drift, digitize=dig))
+    # (sub-box) argument forms: every tone / chirp case of the first (rate, branches) pair with a 2-channel window
+    cases += [dict(c0, form=f) for c0 in list(cases) if c0['rate'] == 1024.0 and c0['P'] == 16 and c0['num_chans'] == 2 and c0['digitize']
+              and c0['polcfg'] in ('1', 'x') for f in ('npbool', 'int', 'quantity')]
     # two constant signals on one stream (different recorded channels; tone + tone, tone + chirp)
     two = []
     for base in cases:
